@@ -10,6 +10,7 @@ over boxes of tagged multi-indices, and the min/max instances (tropical monoids)
   * `trap_sum`          trapezoidal weights: Σ_i w_i φ_i = Σ_cells (x_{i+1}-x_i)(φ_i+φ_{i+1})/2
 -/
 import PygyroVerif.Model.Diagnostics
+import PygyroVerif.Model.Checkpoint
 import PygyroVerif.Lemmas.Blocks
 import Mathlib.Algebra.BigOperators.Group.List.Basic
 import Mathlib.Tactic.LinearCombination
@@ -710,3 +711,539 @@ theorem get3 (ir iq iz : ℕ) : Pt.get [(0, ir), (1, iq), (2, iz)] 0 = ir := by
 end fieldsum
 
 end PygyroVerif.Diag
+
+/-! # Helper lemmas for C18 (array store, file names, loop bookkeeping) -/
+
+namespace PygyroVerif.Ckpt
+open List
+
+/-! ### the array store -/
+
+theorem addIdx_subIdx : ∀ (blk : List (Nat × Nat)) (x : List Nat), inB blk x = true →
+    addIdx (blk.map (·.1)) (subIdx x (blk.map (·.1))) = x
+  | [], [], _ => rfl
+  | [], _ :: _, h => by simp [inB] at h
+  | _ :: _, [], h => by simp [inB] at h
+  | (s, n) :: bs, x :: xs, h => by
+    simp only [inB, Bool.and_eq_true, decide_eq_true_eq] at h
+    have ih := addIdx_subIdx bs xs h.2
+    simp only [addIdx, subIdx, List.map_cons, List.zipWith_cons_cons] at ih ⊢
+    rw [ih]
+    congr 1
+    omega
+
+/-- after all hyperslab writes (in any order) an element holds the global value iff some writer's block contains it -/
+theorem writeAll_get {α : Type} (G : List Nat → α) (dims : List (Nat × Nat)) :
+    ∀ (order : List (List Nat)) (st : Store α) (x : List Nat),
+      writeAll G dims order st x = if order.any (fun c => inB (blockOf dims c) x) then some (G x) else st x := by
+  intro order
+  induction order with
+  | nil => intro st x; rfl
+  | cons c rest ih =>
+    intro st x
+    have e : writeAll G dims (c :: rest) st
+        = writeAll G dims rest (writeBlock st (blockOf dims c) (localOf G (blockOf dims c))) := rfl
+    rw [e, ih]
+    by_cases h1 : rest.any (fun c => inB (blockOf dims c) x) = true
+    · simp [h1]
+    · by_cases h2 : inB (blockOf dims c) x = true
+      · have : localOf G (blockOf dims c) (subIdx x ((blockOf dims c).map (·.1))) = G x := by
+          unfold localOf; rw [addIdx_subIdx _ _ h2]
+        simp [h1, h2, writeBlock, this]
+      · simp [h1, h2, writeBlock]
+
+theorem mem_coords_cons {p : Nat} {ps : List Nat} {c : List Nat} :
+    c ∈ coords (p :: ps) ↔ ∃ k, k < p ∧ ∃ cs, cs ∈ coords ps ∧ c = k :: cs := by
+  simp only [coords, List.mem_flatMap, List.mem_range, List.mem_map]
+  constructor
+  · rintro ⟨k, hk, cs, hcs, rfl⟩; exact ⟨k, hk, cs, hcs, rfl⟩
+  · rintro ⟨k, hk, cs, hcs, rfl⟩; exact ⟨k, hk, cs, hcs, rfl⟩
+
+/-- every index of the global box lies in the block of some process (C02: the ranges tile every axis) -/
+theorem cover : ∀ (dims : List (Nat × Nat)), (∀ d ∈ dims, 0 < d.2) → ∀ (x : List Nat),
+    inB (dims.map (fun d => (0, d.1))) x = true → ∃ c, c ∈ coords (dims.map (·.2)) ∧ inB (blockOf dims c) x = true
+  | [], _, [], _ => ⟨[], by simp [coords], rfl⟩
+  | [], _, _ :: _, h => by simp [inB] at h
+  | _ :: _, _, [], h => by simp [inB] at h
+  | (n, p) :: ds, hp, x :: xs, h => by
+    simp only [List.map_cons, inB, Bool.and_eq_true, decide_eq_true_eq] at h
+    have hp0 : 0 < p := hp (n, p) (by simp)
+    obtain ⟨k, hk, h1, h2⟩ := owner_exists n p hp0 x (by omega)
+    obtain ⟨cs, hcs, hin⟩ := cover ds (fun d hd => hp d (List.mem_cons_of_mem _ hd)) xs h.2
+    refine ⟨k :: cs, mem_coords_cons.2 ⟨k, hk, cs, hcs, rfl⟩, ?_⟩
+    have hle := blockStart_le_succ n p k hp0
+    simp only [blockOf, List.headD_cons, List.tail_cons, inB, Bool.and_eq_true, decide_eq_true_eq, hin, and_true, blockLen]
+    omega
+
+/-- what a reader asks for lies inside the global box -/
+theorem reader_in_box : ∀ (dims : List (Nat × Nat)), (∀ d ∈ dims, 0 < d.2) → ∀ (c : List Nat),
+    c ∈ coords (dims.map (·.2)) → ∀ (i : List Nat), inShape (blockOf dims c) i = true →
+    inB (dims.map (fun d => (0, d.1))) (addIdx ((blockOf dims c).map (·.1)) i) = true
+  | [], _, _, _, [], _ => rfl
+  | [], _, _, _, _ :: _, h => by simp [inShape, blockOf, inB] at h
+  | (n, p) :: ds, hp, c, hc, i, h => by
+    obtain ⟨k, hk, cs, hcs, rfl⟩ := mem_coords_cons.1 hc
+    have hk' : k < p := hk
+    have hp0 : 0 < p := hp (n, p) (by simp)
+    cases i with
+    | nil => simp [inShape, blockOf, inB] at h
+    | cons i is =>
+      simp only [inShape, blockOf, List.headD_cons, List.tail_cons, List.map_cons, inB, Bool.and_eq_true,
+        decide_eq_true_eq] at h
+      have ih := reader_in_box ds (fun d hd => hp d (List.mem_cons_of_mem _ hd)) cs hcs is h.2
+      have hle := blockStart_le_succ n p k hp0
+      have hn := blockStart_le_n n p (k + 1) hp0 (by omega)
+      simp only [blockOf, List.headD_cons, List.tail_cons, List.map_cons, addIdx, List.zipWith_cons_cons, inB,
+        Bool.and_eq_true, decide_eq_true_eq]
+      refine ⟨?_, ih⟩
+      have := h.1
+      unfold blockLen at this
+      omega
+
+/-! ### file names -/
+
+theorem lt_irrefl_list : ∀ (l : List Nat), ¬ l < l
+  | [] => List.not_lt_nil _
+  | a :: l => by
+    rw [List.cons_lt_cons_iff]
+    rintro (h | ⟨_, h⟩)
+    · exact Nat.lt_irrefl _ h
+    · exact lt_irrefl_list l h
+
+theorem append_left_lt_iff : ∀ (p a b : List Nat), p ++ a < p ++ b ↔ a < b
+  | [], _, _ => Iff.rfl
+  | x :: p, a, b => by
+    rw [List.cons_append, List.cons_append, List.cons_lt_cons_iff, append_left_lt_iff p a b]
+    constructor
+    · rintro (h | ⟨_, h⟩)
+      · exact absurd h (Nat.lt_irrefl _)
+      · exact h
+    · exact fun h => Or.inr ⟨rfl, h⟩
+
+theorem append_right_lt_iff : ∀ (a b s : List Nat), a.length = b.length → (a ++ s < b ++ s ↔ a < b)
+  | [], [], s, _ => by simp [lt_irrefl_list]
+  | [], _ :: _, _, h => by simp at h
+  | _ :: _, [], _, h => by simp at h
+  | x :: a, y :: b, s, h => by
+    rw [List.cons_append, List.cons_append, List.cons_lt_cons_iff, List.cons_lt_cons_iff,
+      append_right_lt_iff a b s (by simpa using h)]
+
+theorem map_add_lt_iff (k : Nat) : ∀ (a b : List Nat), a.map (· + k) < b.map (· + k) ↔ a < b
+  | [], [] => by simp
+  | [], y :: b => by simp [List.nil_lt_cons]
+  | x :: a, [] => by simp [List.not_lt_nil]
+  | x :: a, y :: b => by
+    rw [List.map_cons, List.map_cons, List.cons_lt_cons_iff, List.cons_lt_cons_iff, map_add_lt_iff k a b]
+    constructor
+    · rintro (h | ⟨h1, h2⟩)
+      · exact Or.inl (by omega)
+      · exact Or.inr ⟨by omega, h2⟩
+    · rintro (h | ⟨h1, h2⟩)
+      · exact Or.inl (by omega)
+      · exact Or.inr ⟨by omega, h2⟩
+
+theorem padDigits_length (w t : Nat) : (padDigits w t).length = w := by
+  induction w with
+  | zero => rfl
+  | succ w ih => simp [padDigits, ih]
+
+theorem lex_step (P a b r r' : Nat) (hr : r < P) (hr' : r' < P) :
+    r + P * a < r' + P * b ↔ a < b ∨ (a = b ∧ r < r') := by
+  constructor
+  · intro h
+    rcases Nat.lt_trichotomy a b with hab | hab | hab
+    · exact Or.inl hab
+    · subst hab; exact Or.inr ⟨rfl, by omega⟩
+    · exfalso
+      have : P * (b + 1) ≤ P * a := Nat.mul_le_mul_left _ hab
+      rw [Nat.mul_add, Nat.mul_one] at this
+      omega
+  · rintro (hab | ⟨rfl, h⟩)
+    · have : P * (a + 1) ≤ P * b := Nat.mul_le_mul_left _ hab
+      rw [Nat.mul_add, Nat.mul_one] at this
+      omega
+    · omega
+
+/-- lexicographic order of fixed-width digit strings is numeric order (of the part that fits the width) -/
+theorem padDigits_lt_iff (w : Nat) : ∀ (s t : Nat), padDigits w s < padDigits w t ↔ s % 10 ^ w < t % 10 ^ w := by
+  induction w with
+  | zero => intro s t; simp [padDigits, Nat.mod_one, lt_irrefl_list]
+  | succ w ih =>
+    intro s t
+    rw [padDigits, padDigits, List.cons_lt_cons_iff, ih, Nat.mod_pow_succ, Nat.mod_pow_succ]
+    have hP : 0 < 10 ^ w := Nat.pow_pos (by decide)
+    exact (lex_step (10 ^ w) _ _ _ _ (Nat.mod_lt _ hP) (Nat.mod_lt _ hP)).symm
+
+theorem numWidthAux_le : ∀ (fuel t w : Nat), t < 10 ^ (w + 1) → numWidthAux fuel t ≤ w + 1
+  | 0, _, _, _ => by simp [numWidthAux]
+  | fuel + 1, t, w, h => by
+    unfold numWidthAux
+    by_cases h10 : t < 10
+    · simp [h10]
+    · simp only [h10, if_false]
+      cases w with
+      | zero => simp at h; omega
+      | succ w =>
+        have : t / 10 < 10 ^ (w + 1) := by
+          rw [Nat.div_lt_iff_lt_mul (by decide)]
+          rw [Nat.pow_succ] at h; exact h
+        have := numWidthAux_le fuel (t / 10) w this
+        omega
+
+theorem lt_pow_numWidthAux : ∀ (fuel t : Nat), t ≤ fuel → t < 10 ^ numWidthAux fuel t
+  | 0, t, h => by
+    have : t = 0 := by omega
+    subst this; simp [numWidthAux]
+  | fuel + 1, t, h => by
+    unfold numWidthAux
+    by_cases h10 : t < 10
+    · simp [h10]
+    · simp only [h10, if_false]
+      have hle : t / 10 ≤ fuel := by omega
+      have ih := lt_pow_numWidthAux fuel (t / 10) hle
+      rw [Nat.add_comm, Nat.pow_succ]
+      have : t < (t / 10 + 1) * 10 := by omega
+      calc t < (t / 10 + 1) * 10 := this
+        _ ≤ 10 ^ numWidthAux fuel (t / 10) * 10 := Nat.mul_le_mul_right _ ih
+
+theorem numWidth_le_six (t : Nat) (h : t < 10 ^ 6) : max 6 (numWidth t) = 6 := by
+  have := numWidthAux_le t t 5 h
+  unfold numWidth; omega
+
+theorem lt_pow_width (t : Nat) : t < 10 ^ max 6 (numWidth t) := by
+  have h := lt_pow_numWidthAux t t (Nat.le_refl _)
+  exact Nat.lt_of_lt_of_le h (Nat.pow_le_pow_right (by decide) (Nat.le_max_right _ _))
+
+theorem padDigits_lt_ten (w t : Nat) : ∀ d ∈ padDigits w t, d < 10 := by
+  induction w with
+  | zero => simp [padDigits]
+  | succ w ih =>
+    intro d hd
+    simp only [padDigits, List.mem_cons] at hd
+    rcases hd with rfl | hd
+    · exact Nat.mod_lt _ (by decide)
+    · exact ih d hd
+
+theorem foldl_padDigits (w t : Nat) : ∀ acc, (padDigits w t).foldl (fun a d => a * 10 + d) acc = acc * 10 ^ w + t % 10 ^ w := by
+  induction w with
+  | zero => intro acc; simp [padDigits, Nat.mod_one]
+  | succ w ih =>
+    intro acc
+    rw [padDigits, List.foldl_cons, ih, Nat.mod_pow_succ, Nat.pow_succ]
+    ring
+
+theorem parseNat_digits (ds : List Nat) (hne : ds ≠ []) (hd : ∀ d ∈ ds, d < 10) :
+    parseNat (ds.map (· + 48)) = some (ds.foldl (fun a d => a * 10 + d) 0) := by
+  unfold parseNat
+  have hne' : ds.map (· + 48) ≠ [] := by simpa using hne
+  rw [if_neg hne']
+  have key : ∀ (l : List Nat), (∀ d ∈ l, d < 10) → ∀ acc : Nat,
+      (l.map (· + 48)).foldl (fun acc ch => match acc with
+        | none => none
+        | some a => if 48 ≤ ch ∧ ch ≤ 57 then some (a * 10 + (ch - 48)) else none) (some acc)
+      = some (l.foldl (fun a d => a * 10 + d) acc) := by
+    intro l
+    induction l with
+    | nil => intro _ acc; rfl
+    | cons d l ih =>
+      intro hl acc
+      have hd10 : d < 10 := hl d (by simp)
+      have hc : 48 ≤ d + 48 ∧ d + 48 ≤ 57 := by omega
+      simp only [List.map_cons, List.foldl_cons, hc, and_self, if_true, Nat.add_sub_cancel]
+      exact ih (fun x hx => hl x (List.mem_cons_of_mem _ hx)) _
+  exact key ds hd 0
+
+theorem lastField_append (sep : Nat) : ∀ (p s : List Nat), sep ∉ s → lastField sep (p ++ sep :: s) = s
+  | [], s, h => by simp [lastField, h]
+  | x :: p, s, h => by
+    have : sep ∈ p ++ sep :: s := by simp
+    simp only [List.cons_append, lastField, this, if_true]
+    exact lastField_append sep p s h
+
+theorem firstField_append (sep : Nat) : ∀ (a r : List Nat), sep ∉ a → firstField sep (a ++ sep :: r) = a
+  | [], r, _ => by simp [firstField]
+  | x :: a, r, h => by
+    simp only [List.mem_cons, not_or] at h
+    have ih := firstField_append sep a r h.2
+    unfold firstField at ih ⊢
+    have hx : x ≠ sep := fun e => h.1 e.symm
+    simpa [List.takeWhile_cons, hx] using ih
+
+theorem fmt06_mem (t d : Nat) (h : d ∈ fmt06 t) : 48 ≤ d ∧ d ≤ 57 := by
+  unfold fmt06 at h
+  obtain ⟨x, hx, rfl⟩ := List.mem_map.1 h
+  have := padDigits_lt_ten _ _ x hx
+  omega
+
+/-- `max` of the names of a non-empty set of times, when names order like times -/
+theorem foldl_latest (nm : Nat → List Nat) (P : Nat → Prop) (hnm : ∀ s t, P s → P t → (nm s < nm t ↔ s < t)) :
+    ∀ (ts : List Nat) (m : Nat), P m → (∀ t ∈ ts, P t) →
+      (ts.map nm).foldl (fun m y => if m < y then y else m) (nm m) = nm (ts.foldl max m) ∧ P (ts.foldl max m)
+  | [], m, hm, _ => ⟨rfl, hm⟩
+  | y :: ts, m, hm, hts => by
+    have hy : P y := hts y (by simp)
+    have hstep : (if nm m < nm y then nm y else nm m) = nm (max m y) := by
+      by_cases h : m < y
+      · rw [if_pos ((hnm m y hm hy).2 h), Nat.max_eq_right (Nat.le_of_lt h)]
+      · rw [if_neg (fun h' => h ((hnm m y hm hy).1 h')), Nat.max_eq_left (Nat.le_of_not_lt h)]
+    have hP : P (max m y) := by
+      by_cases h : m ≤ y
+      · rw [Nat.max_eq_right h]; exact hy
+      · rw [Nat.max_eq_left (Nat.le_of_not_le h)]; exact hm
+    simp only [List.map_cons, List.foldl_cons, hstep]
+    exact foldl_latest nm P hnm ts (max m y) hP (fun t ht => hts t (List.mem_cons_of_mem _ ht))
+
+theorem foldl_max_ge : ∀ (ts : List Nat) (m : Nat), m ≤ ts.foldl max m ∧ (∀ t ∈ ts, t ≤ ts.foldl max m)
+    ∧ (ts.foldl max m = m ∨ ts.foldl max m ∈ ts)
+  | [], m => ⟨Nat.le_refl _, by simp, Or.inl rfl⟩
+  | y :: ts, m => by
+    obtain ⟨h1, h2, h3⟩ := foldl_max_ge ts (max m y)
+    simp only [List.foldl_cons]
+    refine ⟨le_trans (Nat.le_max_left _ _) h1, ?_, ?_⟩
+    · intro t ht
+      rcases List.mem_cons.1 ht with rfl | ht
+      · exact le_trans (Nat.le_max_right _ _) h1
+      · exact h2 t ht
+    · rcases h3 with h3 | h3
+      · rw [h3]
+        by_cases h : m ≤ y
+        · rw [Nat.max_eq_right h]; exact Or.inr (by simp)
+        · rw [Nat.max_eq_left (Nat.le_of_not_le h)]; exact Or.inl rfl
+      · exact Or.inr (List.mem_cons_of_mem _ h3)
+
+/-! ### the time loop: iteration -/
+
+/-- `n` unconditional executions of the loop body -/
+def iterC (body : List Stmt) : Nat → CState → CState
+  | 0, s => s
+  | n + 1, s => iterC body n (execStmtsC s body)
+
+theorem iterC_add (body : List Stmt) : ∀ (n m : Nat) (s : CState), iterC body (n + m) s = iterC body m (iterC body n s)
+  | 0, m, s => by simp [iterC]
+  | n + 1, m, s => by
+    have : n + 1 + m = (n + m) + 1 := by omega
+    rw [this]; simp only [iterC]; exact iterC_add body n m _
+
+/-- a `while` loop is some number of executions of its body: as many as the condition allowed -/
+theorem whileC_eq_iter (cond : Cond) (body : List Stmt) : ∀ (fuel : Nat) (s : CState),
+    ∃ k, k ≤ fuel ∧ whileC cond body fuel s = iterC body k s
+      ∧ (∀ j, j < k → cond.eval (iterC body j s) = true)
+      ∧ (k < fuel → cond.eval (iterC body k s) = false)
+  | 0, s => ⟨0, Nat.le_refl _, rfl, by simp, by simp⟩
+  | fuel + 1, s => by
+    by_cases h : cond.eval s = true
+    · obtain ⟨k, hk, he, hall, hstop⟩ := whileC_eq_iter cond body fuel (execStmtsC s body)
+      refine ⟨k + 1, by omega, ?_, ?_, ?_⟩
+      · simp only [whileC, h, if_true, iterC]; exact he
+      · intro j hj
+        cases j with
+        | zero => exact h
+        | succ j => exact hall j (by omega)
+      · intro hlt; exact hstop (by omega)
+    · refine ⟨0, by omega, ?_, by simp, ?_⟩
+      · simp only [whileC, h]; rfl
+      · intro _; simpa [iterC] using h
+
+/-! ### the time loop: closed forms of the three parts of the driver -/
+
+/-- everything before the loop -/
+def preSpec (s : CState) : CState :=
+  let t0 := if s.loadable then s.fileTime else 0
+  let ti0 := pyDiv t0 s.dt
+  { s with saveStepCut := s.saveStep - 1, t := t0, ti := ti0, tN := pyDiv s.tEnd s.dt, nLoops := 0,
+           startPrint := max 0 (pyMod ti0 s.saveStep),
+           events := s.events ++ [Event.collect t0] ++
+             (if s.loadable then [] else [Event.ckpt false t0, Event.ckpt true t0, Event.reduce, Event.lines 0 (0 + 1)]) }
+
+/-- one pass through the loop body -/
+def bodySpec (s : CState) : CState :=
+  let t' := s.t + s.dt
+  { s with t := t', ti := s.ti + 1, nLoops := s.nLoops + 1,
+           startPrint := if pyMod s.ti s.saveStep = s.saveStepCut then 0 else s.startPrint,
+           crashed := s.crashed || decide (s.nLoops + 1 = 0),
+           timeForLoop := s.clock.headD true, clock := s.clock.tail,
+           events := s.events ++ [Event.collect t'] ++
+             (if pyMod s.ti s.saveStep = s.saveStepCut then
+                [Event.ckpt false t', Event.ckpt true t', Event.reduce,
+                 Event.lines s.startPrint (min s.saveStep (s.ti + 1))] else []) }
+
+/-- everything after the loop -/
+def postSpec (s : CState) : CState :=
+  if pyMod s.ti s.saveStep ≠ 0 then
+    { s with events := s.events ++ [Event.reduce, Event.lines 0 (pyMod s.ti s.saveStep),
+                                    Event.ckpt false s.t, Event.ckpt true s.t] }
+  else s
+
+def iterSpec : Nat → CState → CState
+  | 0, s => s
+  | n + 1, s => iterSpec n (bodySpec s)
+
+theorem iterC_eq_iterSpec (body : List Stmt) (h : ∀ s, execStmtsC s body = bodySpec s) :
+    ∀ (n : Nat) (s : CState), iterC body n s = iterSpec n s
+  | 0, _ => rfl
+  | n + 1, s => by simp only [iterC, iterSpec, h]; exact iterC_eq_iterSpec body h n _
+
+theorem iterSpec_add : ∀ (n m : Nat) (s : CState), iterSpec (n + m) s = iterSpec m (iterSpec n s)
+  | 0, m, s => by simp [iterSpec]
+  | n + 1, m, s => by
+    have : n + 1 + m = (n + m) + 1 := by omega
+    rw [this]; simp only [iterSpec]; exact iterSpec_add n m _
+
+/-- times of the grid checkpoints among the events -/
+def ckptTimes : List Event → List Int
+  | [] => []
+  | Event.ckpt false t :: r => t :: ckptTimes r
+  | _ :: r => ckptTimes r
+
+theorem ckptTimes_append : ∀ (a b : List Event), ckptTimes (a ++ b) = ckptTimes a ++ ckptTimes b
+  | [], _ => rfl
+  | e :: a, b => by
+    cases e with
+    | ckpt p t => cases p <;> simp [ckptTimes, ckptTimes_append a b]
+    | collect t => simp [ckptTimes, ckptTimes_append a b]
+    | reduce => simp [ckptTimes, ckptTimes_append a b]
+    | lines lo hi => simp [ckptTimes, ckptTimes_append a b]
+
+/-- times of the phi checkpoints: always written together with the grid -/
+def phiTimes : List Event → List Int
+  | [] => []
+  | Event.ckpt true t :: r => t :: phiTimes r
+  | _ :: r => phiTimes r
+
+theorem phiTimes_append : ∀ (a b : List Event), phiTimes (a ++ b) = phiTimes a ++ phiTimes b
+  | [], _ => rfl
+  | e :: a, b => by
+    cases e with
+    | ckpt p t => cases p <;> simp [phiTimes, phiTimes_append a b]
+    | collect t => simp [phiTimes, phiTimes_append a b]
+    | reduce => simp [phiTimes, phiTimes_append a b]
+    | lines lo hi => simp [phiTimes, phiTimes_append a b]
+
+/-- the in-loop checkpoint times of `n` iterations starting at step index `ti`, time `t` -/
+def loopCkpts (S dt : Int) : Nat → Int → Int → List Int
+  | 0, _, _ => []
+  | n + 1, ti, t => (if pyMod ti S = S - 1 then [t + dt] else []) ++ loopCkpts S dt n (ti + 1) (t + dt)
+
+theorem loopCkpts_add (S dt : Int) : ∀ (n m : Nat) (ti t : Int),
+    loopCkpts S dt (n + m) ti t = loopCkpts S dt n ti t ++ loopCkpts S dt m (ti + n) (t + n * dt)
+  | 0, m, ti, t => by simp [loopCkpts]
+  | n + 1, m, ti, t => by
+    have : n + 1 + m = (n + m) + 1 := by omega
+    rw [this]
+    simp only [loopCkpts, loopCkpts_add S dt n m, List.append_assoc]
+    have e1 : ti + 1 + (n : Int) = ti + ((n + 1 : Nat) : Int) := by push_cast; ring
+    have e2 : t + dt + (n : Int) * dt = t + ((n + 1 : Nat) : Int) * dt := by push_cast; ring
+    rw [e1, e2]
+
+theorem mem_loopCkpts (S dt : Int) : ∀ (n : Nat) (ti t x : Int),
+    x ∈ loopCkpts S dt n ti t ↔ ∃ j : Nat, j < n ∧ pyMod (ti + j) S = S - 1 ∧ x = t + (j + 1) * dt
+  | 0, ti, t, x => by simp [loopCkpts]
+  | n + 1, ti, t, x => by
+    simp only [loopCkpts, List.mem_append, mem_loopCkpts S dt n]
+    constructor
+    · rintro (h | ⟨j, hj, hm, hx⟩)
+      · by_cases hc : pyMod ti S = S - 1
+        · simp only [hc, if_true, List.mem_singleton] at h
+          exact ⟨0, by omega, by simpa using hc, by simp [h]⟩
+        · simp [hc] at h
+      · refine ⟨j + 1, by omega, ?_, ?_⟩
+        · rw [← hm]; congr 1; push_cast; ring
+        · rw [hx]; push_cast; ring
+    · rintro ⟨j, hj, hm, hx⟩
+      cases j with
+      | zero =>
+        left
+        have : pyMod ti S = S - 1 := by simpa using hm
+        simp [this, hx]
+      | succ j =>
+        right
+        refine ⟨j, by omega, ?_, ?_⟩
+        · rw [← hm]; congr 1; push_cast; ring
+        · rw [hx]; push_cast; ring
+
+/-- the fields that the loop never changes -/
+def sameParams (a b : CState) : Prop :=
+  a.saveStep = b.saveStep ∧ a.saveStepCut = b.saveStepCut ∧ a.dt = b.dt ∧ a.tEnd = b.tEnd ∧ a.tN = b.tN
+    ∧ a.loadable = b.loadable ∧ a.fileTime = b.fileTime
+
+/-- closed form of `n` passes through the body -/
+theorem iterSpec_closed : ∀ (n : Nat) (s : CState), s.saveStepCut = s.saveStep - 1 →
+    (iterSpec n s).t = s.t + n * s.dt ∧ (iterSpec n s).ti = s.ti + n ∧ (iterSpec n s).nLoops = s.nLoops + n
+    ∧ sameParams (iterSpec n s) s
+    ∧ ckptTimes (iterSpec n s).events = ckptTimes s.events ++ loopCkpts s.saveStep s.dt n s.ti s.t
+    ∧ phiTimes (iterSpec n s).events = phiTimes s.events ++ loopCkpts s.saveStep s.dt n s.ti s.t
+    ∧ (0 ≤ s.nLoops → (iterSpec n s).crashed = s.crashed)
+  | 0, s, _ => by simp [iterSpec, loopCkpts, sameParams]
+  | n + 1, s, hc => by
+    have hb : (bodySpec s).saveStepCut = (bodySpec s).saveStep - 1 := hc
+    obtain ⟨h1, h2, h3, h4, h5, h6, h7⟩ := iterSpec_closed n (bodySpec s) hb
+    simp only [iterSpec]
+    refine ⟨?_, ?_, ?_, ?_, ?_, ?_, ?_⟩
+    · rw [h1]; show s.t + s.dt + n * s.dt = s.t + ((n + 1 : Nat) : Int) * s.dt; push_cast; ring
+    · rw [h2]; show s.ti + 1 + n = s.ti + ((n + 1 : Nat) : Int); push_cast; ring
+    · rw [h3]; show s.nLoops + 1 + n = s.nLoops + ((n + 1 : Nat) : Int); push_cast; ring
+    · exact h4
+    · rw [h5]
+      show ckptTimes (s.events ++ [Event.collect (s.t + s.dt)] ++ _) ++ loopCkpts s.saveStep s.dt n (s.ti + 1) (s.t + s.dt) = _
+      rw [ckptTimes_append, ckptTimes_append, hc]
+      by_cases hs : pyMod s.ti s.saveStep = s.saveStep - 1
+      · simp [loopCkpts, hs, ckptTimes]
+      · simp [loopCkpts, hs, ckptTimes]
+    · rw [h6]
+      show phiTimes (s.events ++ [Event.collect (s.t + s.dt)] ++ _) ++ loopCkpts s.saveStep s.dt n (s.ti + 1) (s.t + s.dt) = _
+      rw [phiTimes_append, phiTimes_append, hc]
+      by_cases hs : pyMod s.ti s.saveStep = s.saveStep - 1
+      · simp [loopCkpts, hs, phiTimes]
+      · simp [loopCkpts, hs, phiTimes]
+    · intro h0
+      have : (0 : Int) ≤ (bodySpec s).nLoops := by show 0 ≤ s.nLoops + 1; omega
+      rw [h7 this]
+      show (s.crashed || decide (s.nLoops + 1 = 0)) = s.crashed
+      have : ¬ (s.nLoops + 1 = 0) := by omega
+      simp [this]
+
+theorem pyMod_eq (a S : Int) (h : 0 < S) : pyMod a S = a % S := Int.fmod_eq_emod_of_nonneg _ (le_of_lt h)
+theorem pyDiv_eq (a d : Int) (h : 0 < d) : pyDiv a d = a / d := Int.fdiv_eq_ediv_of_nonneg _ (le_of_lt h)
+
+theorem pyDiv_mul (k d : Int) (h : 0 < d) : pyDiv (k * d) d = k := by
+  rw [pyDiv_eq _ _ h, Int.mul_ediv_cancel _ (ne_of_gt h)]
+
+/-- if step `x` is a multiple of `S` then the previous step index is `S - 1` modulo `S`: the pass that led to `x` saved -/
+theorem prev_saves (x S : Int) (hS : 0 < S) (h : pyMod x S = 0) : pyMod (x - 1) S = S - 1 := by
+  rw [pyMod_eq _ _ hS] at h ⊢
+  obtain ⟨q, hq⟩ := Int.dvd_of_emod_eq_zero h
+  have : x - 1 = (S - 1) + S * (q - 1) := by rw [hq]; ring
+  rw [this, Int.add_mul_emod_self_left, Int.emod_eq_of_lt (by omega) (by omega)]
+
+/-! ### the time loop: symbolic data flow -/
+
+/-- the state at the head of the loop: `distribFunc` in `v_parallel` (nothing saved), `phi` and `rho` in `v_parallel_2d` -/
+def mkSim (F P R pgv : Term) (files : List (Bool × SGrid)) : Sim :=
+  { f := ⟨F, .v_parallel⟩, fsave := none, phi := ⟨P, .v_parallel_2d⟩, rho := ⟨R, .v_parallel_2d⟩, pgv := pgv, files := files }
+
+/-- `n` passes through a (partial) step function -/
+def iterS (step : Sim → Option Sim) : Nat → Sim → Option Sim
+  | 0, s => some s
+  | n + 1, s => match step s with
+    | none => none
+    | some s' => iterS step n s'
+
+/-- what a checkpoint + restart has to reproduce: the three grids (the gradient table is scratch) -/
+def Sim.live (s : Sim) : SGrid × Option SGrid × SGrid × SGrid := (s.f, s.fsave, s.phi, s.rho)
+
+/-- if one pass maps the loop-head state built on `F` to the loop-head state built on `stepOf F`, whatever the gradient
+    table held, then `n` passes map it to the one built on `stepOf^[n] F` -/
+theorem iterS_closed (step : Sim → Option Sim) (stepOf phiOf rhoOf pgvOf : Term → Term)
+    (hstep : ∀ F pgv files, ∃ files', step (mkSim F (phiOf F) (rhoOf F) pgv files)
+        = some (mkSim (stepOf F) (phiOf (stepOf F)) (rhoOf (stepOf F)) (pgvOf F) files')) :
+    ∀ (n : Nat) (F pgv : Term) (files : List (Bool × SGrid)), ∃ pgv' files',
+      iterS step n (mkSim F (phiOf F) (rhoOf F) pgv files)
+        = some (mkSim (stepOf^[n] F) (phiOf (stepOf^[n] F)) (rhoOf (stepOf^[n] F)) pgv' files')
+  | 0, F, pgv, files => ⟨pgv, files, rfl⟩
+  | n + 1, F, pgv, files => by
+    obtain ⟨files1, h1⟩ := hstep F pgv files
+    obtain ⟨pgv', files', h2⟩ := iterS_closed step stepOf phiOf rhoOf pgvOf hstep n (stepOf F) (pgvOf F) files1
+    refine ⟨pgv', files', ?_⟩
+    simp only [iterS, h1, h2, Function.iterate_succ, Function.comp]
+
+end PygyroVerif.Ckpt
